@@ -720,6 +720,35 @@ def user_code(body):
 # all have the shape  loop { match Iterator::next(&mut it) { Some(e) => body, None => break } }
 # ----------------------------------------------------------------------------------------
 
+def fixed_len(facts, body, coll):
+    """Length of `self.<field>` when the field is a fixed-size array [T; N] (N a literal or a constant of the
+    type's module), else None."""
+    coll = norm(coll)
+    if coll[0] != "field" or coll[1] != ("var", "self") or body.arg_count < 1:
+        return None
+    ty = body.locals[1]["ty"].replace("&mut ", "").replace("&", "").split("<")[0].strip()
+    a = facts.adts.get(ty)
+    if not a:
+        return None
+    for v in a["variants"]:
+        for f in v["fields"]:
+            if f["name"] == coll[2]:
+                m = re.match(r"^\[.*; (\w+)\]$", f["ty"])
+                if not m:
+                    return None
+                if m.group(1).isdigit():
+                    return int(m.group(1))
+                mod = ty.rsplit("::", 1)[0] if "::" in ty else ""
+                for cand in ((mod + "::" if mod else "") + m.group(1), m.group(1)):
+                    try:
+                        cv = facts.const_value(cand)
+                    except Exception:
+                        cv = None
+                    if isinstance(cv, int):
+                        return cv
+    return None
+
+
 class Iteration:
     """One loop around an Iterator::next call in `body` (normally a flattened body)."""
 
@@ -798,6 +827,59 @@ class Iteration:
 
     def is_elem(self, e):
         return self.canon(e) == ("elem",)
+
+    def components(self):
+        """What the element is made of: [(path, kind, coll)], path = tuple of tuple-field names inside the element,
+        kind "index" (the position 0, 1, 2, ..: coll is the Range, or None for enumerate) or "item" (the items of
+        `coll`, in order).  Covers ranges, x.iter() / x.iter_mut() / `for _ in x`, zip and enumerate."""
+        def comp(src, path):
+            src = norm(src)
+            if is_call(src, "Iterator::zip") and len(src[2]) == 2:
+                return comp(src[2][0], path + ("0",)) + comp(src[2][1], path + ("1",))
+            if is_call(src, "Iterator::enumerate") and len(src[2]) == 1:
+                return [(path + ("0",), "index", None)] + comp(src[2][0], path + ("1",))
+            if (is_call(src, "into_iter") or is_call(src, "IntoIterator::into_iter")) and len(src[2]) == 1:
+                return comp(src[2][0], path)
+            if (is_call(src, "iter") or is_call(src, "iter_mut")) and len(src[2]) == 1:
+                return [(path, "item", norm(src[2][0]))]
+            if src[0] == "agg" and src[2].endswith("Range::Range"):
+                return [(path, "index", src)]
+            return [(path, "item", src)]
+        return comp(self.source, ())
+
+    def indexed(self, e):
+        """canon(e) in positional form: the k-th item of a collection that is walked in step with the loop reads
+        ("index", coll, ("elem",)) and the position itself ("elem",) - the same as `for i in 0..n { coll[i] }`."""
+        e = self.canon(e)
+        m = {}
+        for path, kind, coll in self.components():
+            x = ("elem",)
+            for f in path:
+                x = ("field", x, f)
+            if kind == "item":
+                m[x] = ("index", coll, ("elem",))
+            elif path:
+                m[x] = ("elem",)
+        return norm(subst(e, m)) if m else e
+
+    def rounds(self, facts):
+        """Number of rounds when it is a constant: the shortest of the zipped components (range bounds, lengths of
+        fixed-size arrays held in fields of self); None when not known."""
+        best = None
+        for path, kind, coll in self.components():
+            n = None
+            if kind == "index" and coll is None:
+                continue
+            if kind == "index":
+                lo, hi = coll[3][0], coll[3][1]
+                if lo[0] == "const" and hi[0] == "const" and isinstance(lo[1], int) and isinstance(hi[1], int):
+                    n = max(0, hi[1] - lo[1])
+            else:
+                n = fixed_len(facts, self.body, coll)
+            if n is None:
+                return None
+            best = n if best is None else min(best, n)
+        return best
 
     def calls_to(self, *names):
         return [(bi, t) for bi, t in self.body.calls() if bi in self.region and any(callee_matches(self.body.callee_of(t), n) for n in names)]
